@@ -193,7 +193,8 @@ def shard_preset(sh):
     calls = [('setint A %s 7' % enc(b'i'), 'i', 'int', '7', None), ('setint A %s 7 0' % enc(b'il'), 'il', 'int', '7', 0), ('setint A %s 7 1' % enc(b'il'), 'il', 'int', '7', 1),
              ('setint A %s 7 5' % enc(b'il'), 'il', 'int', '7', 5), ('setfloat A %s 2.5' % enc(b'f'), 'f', 'float', '2.5', None),
              ('setstr A %s %s' % (enc(b's'), enc(b'v')), 's', 'str', enc(b'v'), None), ('setstr A %s %s 0' % (enc(b'sl'), enc(b'v')), 'sl', 'str', enc(b'v'), 0),
-             ('setint A %s 7' % enc(b'sec|x'), 'sec|x', 'int', '7', None)]
+             ('setint A %s 7' % enc(b'sec|x'), 'sec|x', 'int', '7', None),
+             ('setstr A %s ~' % enc(b's'), 's', 'str', '~', None), ('setstr A %s ~ 0' % enc(b'sl'), 'sl', 'str', '~', 0)]      # NULL is a value too: the callback sees it
     for pre in ([], ['setint A %s 9' % enc(b'i'), 'setint A %s 9 0' % enc(b'il')], ['parse_buf A ' + enc(b'il += {3} sec { x = 4 } sl = {a}')]):
         for mode in (0, 1, 2):
             for (line, name, kind, val, idx) in calls:
